@@ -558,6 +558,12 @@ def main():
         extra_cov["std_differential_programs"] = n
         for name, ex, f, a, b in bad:
             extra_fail.append(("oracle", None, f"O7:{name}: field {f}: cactusref={a} std={b}", ex))
+    if cfg.get("std"):
+        rc, o = sh([engine.HEXEC, "apidiff", "20" if tier == "quick" else "400"], timeout=1800)
+        line = o.strip().split("\n")[-1] if o.strip() else ""
+        extra_cov["unmodelled_api_differential"] = line
+        if rc != 0 or not line.startswith("ok"):
+            extra_fail.append(("oracle", None, "O7:unmodelled shared API differs from std: " + line, [line]))
     if cfg.get("layout"):
         cases = make_stream("contract_full", seed, tier)[: (600 if tier == "quick" else 8000)]
         base, n, bad = layout_check(cases, seed)
